@@ -138,6 +138,12 @@ var hintLemmas = map[string]*hintLemma{
 	"cdiv-mono": {"cdiv-mono", 3, func(u *Unit, a []*Term) *Term {
 		return Imp(And(Ge(a[2], IntLit(1)), Le(IntLit(0), a[0]), Le(a[0], a[1])), Le(u.specFn("cdiv", a[0], a[2]), u.specFn("cdiv", a[1], a[2])))
 	}},
+	"align-covers": {"align-covers", 3, func(u *Unit, a []*Term) *Term {
+		// a whole number of frames L that fits into n also fits into n rounded down to whole frames
+		n, ch, l := a[0], a[1], a[2]
+		return Imp(And(Ge(ch, IntLit(1)), Ge(l, IntLit(0)), Eq(l, u.specBI(ch, IntLit(0), u.specFn("fdiv", l, ch))), Le(l, n)),
+			Le(l, u.specBI(ch, IntLit(0), u.specFn("fdiv", n, ch))))
+	}},
 	"bi-zero": {"bi-zero", 1, func(u *Unit, a []*Term) *Term {
 		return Eq(u.specBI(a[0], IntLit(0), IntLit(0)), IntLit(0))
 	}},
